@@ -1,0 +1,123 @@
+/*
+ * Verification hooks (compiled only with `--cfg starlark_verif`).
+ *
+ * Nothing in this module is reachable in a normal build. It holds the control
+ * block and counters used by external runtime monitors:
+ *
+ * * a forced garbage collection schedule ("collect at every k-th safepoint"),
+ * * poisoning (and optional quarantine) of arena memory when an arena dies,
+ * * counters reporting what the hooks actually did.
+ */
+
+//! Verification hooks, only with `--cfg starlark_verif`.
+
+use std::cell::Cell;
+use std::sync::atomic::AtomicBool;
+use std::sync::atomic::AtomicU64;
+use std::sync::atomic::Ordering;
+
+thread_local! {
+    static GC_EVERY: Cell<u64> = const { Cell::new(0) };
+    static SAFEPOINTS: Cell<u64> = const { Cell::new(0) };
+    static SINCE_SET: Cell<u64> = const { Cell::new(0) };
+    static COLLECTIONS: Cell<u64> = const { Cell::new(0) };
+}
+
+static POISON: AtomicBool = AtomicBool::new(false);
+static QUARANTINE_BUDGET: AtomicU64 = AtomicU64::new(0);
+static ARENAS_DROPPED: AtomicU64 = AtomicU64::new(0);
+static BYTES_POISONED: AtomicU64 = AtomicU64::new(0);
+static BYTES_QUARANTINED: AtomicU64 = AtomicU64::new(0);
+
+/// Byte written over dead arenas.
+pub const POISON_BYTE: u8 = 0xDD;
+
+/// Counters of what the hooks did so far.
+#[derive(Debug, Clone, Copy, Default, PartialEq, Eq)]
+pub struct Counters {
+    /// GC safepoints seen on this thread.
+    pub safepoints: u64,
+    /// Collections performed on this thread.
+    pub collections: u64,
+    /// Non-empty arenas dropped (process wide).
+    pub arenas_dropped: u64,
+    /// Bytes overwritten with poison (process wide).
+    pub bytes_poisoned: u64,
+    /// Bytes of poisoned memory which were never returned to the allocator (process wide).
+    pub bytes_quarantined: u64,
+}
+
+/// Collect at every `k`-th safepoint of this thread (0 = default policy only).
+pub fn set_gc_every(k: u64) {
+    GC_EVERY.with(|c| c.set(k));
+    SINCE_SET.with(|c| c.set(0));
+}
+
+/// Enable or disable poisoning of arenas when they are dropped (process wide).
+pub fn set_poison(on: bool) {
+    POISON.store(on, Ordering::Relaxed);
+}
+
+/// Number of bytes of poisoned arenas which may be leaked instead of being recycled.
+pub fn set_quarantine_budget(bytes: u64) {
+    QUARANTINE_BUDGET.store(bytes, Ordering::Relaxed);
+}
+
+/// Read the counters.
+pub fn counters() -> Counters {
+    Counters {
+        safepoints: SAFEPOINTS.try_with(|c| c.get()).unwrap_or(0),
+        collections: COLLECTIONS.try_with(|c| c.get()).unwrap_or(0),
+        arenas_dropped: ARENAS_DROPPED.load(Ordering::Relaxed),
+        bytes_poisoned: BYTES_POISONED.load(Ordering::Relaxed),
+        bytes_quarantined: BYTES_QUARANTINED.load(Ordering::Relaxed),
+    }
+}
+
+/// Called at a GC safepoint: must this safepoint collect?
+pub(crate) fn safepoint_forces_gc() -> bool {
+    let _ = SAFEPOINTS.try_with(|c| c.set(c.get() + 1));
+    let n = SINCE_SET
+        .try_with(|c| {
+            let n = c.get() + 1;
+            c.set(n);
+            n
+        })
+        .unwrap_or(0);
+    let k = GC_EVERY.try_with(|c| c.get()).unwrap_or(0);
+    k != 0 && n % k == 0
+}
+
+/// Called when the evaluator collects garbage.
+pub(crate) fn note_collection() {
+    let _ = COLLECTIONS.try_with(|c| c.set(c.get() + 1));
+}
+
+/// Is poisoning on?
+pub(crate) fn poison_enabled() -> bool {
+    POISON.load(Ordering::Relaxed)
+}
+
+/// Record a poisoned arena; returns true when its memory must be quarantined.
+pub(crate) fn note_arena_poisoned(bytes: u64) -> bool {
+    ARENAS_DROPPED.fetch_add(1, Ordering::Relaxed);
+    BYTES_POISONED.fetch_add(bytes, Ordering::Relaxed);
+    let mut budget = QUARANTINE_BUDGET.load(Ordering::Relaxed);
+    loop {
+        if budget < bytes || bytes == 0 {
+            return false;
+        }
+        match QUARANTINE_BUDGET.compare_exchange_weak(
+            budget,
+            budget - bytes,
+            Ordering::Relaxed,
+            Ordering::Relaxed,
+        ) {
+            Ok(_) => {
+                BYTES_QUARANTINED.fetch_add(bytes, Ordering::Relaxed);
+                return true;
+            }
+            Err(b) => budget = b,
+        }
+    }
+}
